@@ -404,6 +404,12 @@ static void PlaceValue(Word Value, Boolean IsByte) {
         }
     } else {
         if (CodeSegSize) {
+            /* a preceding string of odd length left a half-filled word: flush
+               it before the integer gets its own word */
+
+            if (WordAccFull) {
+                AppendCode(WordAcc);
+            }
             AppendCode(Value);
         } else {
             BAsmCode[CodeLen++] = Lo(Value);
